@@ -48,6 +48,15 @@ ArgProbes    == { Probe("null-arg", <<Fun("f", <<Param("p", TyStr(NT(g[4], g[2])
                         SrcSetup(g[1], g[3]), <<Expr(Call("f", <<SrcE(g[1], g[3])>>))>>, FALSE, OK4(g[1], g[2], g[3], g[4]), Note4(g[1], g[2], g[3], g[4])) : g \in Grid }
              \cup { Probe("null-ctor-arg", <<Class("K", <<CArg("p", TRUE, TRUE, TyStr(NT(g[4], g[2])), Absent)>>, <<>>, <<>>, <<>>)>>,
                         SrcSetup(g[1], g[3]), <<Expr(New("K", <<SrcE(g[1], g[3])>>))>>, FALSE, OK4(g[1], g[2], g[3], g[4]), Note4(g[1], g[2], g[3], g[4])) : g \in Grid }
+             \* the same for a parameter that HAS A DEFAULT (second position, the default is a value of the type), for a method, and for
+             \* a class argument with a default: a default does not make the parameter nullable
+             \cup { Probe("null-arg", <<Fun("f", <<Param("p0", "Int", Absent), Param("p", TyStr(NT(g[4], g[2])), Lit(g[4]))>>, "Int", <<>>, <<Expr(IntL(7))>>)>>,
+                        SrcSetup(g[1], g[3]), <<Expr(Call("f", <<IntL(1), SrcE(g[1], g[3])>>))>>, FALSE, OK4(g[1], g[2], g[3], g[4]), Note4(g[1], g[2], g[3], g[4])) : g \in Grid }
+             \cup { Probe("null-arg", <<Class("M", <<>>, <<>>, <<>>, <<Method("m", TRUE, <<Param("p", TyStr(NT(g[4], g[2])), IF wd THEN Lit(g[4]) ELSE Absent)>>, "Int", <<>>, <<Expr(IntL(7))>>)>>)>>,
+                        SrcSetup(g[1], g[3]) \o <<Def("mrecv", TRUE, "", New("M", <<>>))>>, <<Expr(MCall(Var("mrecv"), "m", <<SrcE(g[1], g[3])>>))>>, FALSE, OK4(g[1], g[2], g[3], g[4]), Note4(g[1], g[2], g[3], g[4]))
+                    : g \in Grid, wd \in BOOLEAN }
+             \cup { Probe("null-ctor-arg", <<Class("K", <<CArg("p", TRUE, TRUE, TyStr(NT(g[4], g[2])), Lit(g[4]))>>, <<>>, <<>>, <<>>)>>,
+                        SrcSetup(g[1], g[3]), <<Expr(New("K", <<SrcE(g[1], g[3])>>))>>, FALSE, OK4(g[1], g[2], g[3], g[4]), Note4(g[1], g[2], g[3], g[4])) : g \in Grid }
 \* the source must be visible inside the function: parameters of type T? / T
 ReturnProbes == { Probe("null-return", <<Fun("k", <<Param(VarName(NT(g[1], TRUE)), TyStr(NT(g[1], TRUE)), Absent)>>, TyStr(NT(g[4], g[2])), <<>>,
                                           (CASE shape = "explicit" -> <<Ret(SrcE(g[1], g[3]))>> [] shape = "implicit" -> <<Expr(SrcE(g[1], g[3]))>>
